@@ -782,17 +782,42 @@ func Cmp(a VM, op token.Token, b VM) FM {
 	}
 }
 
-func cmpMatch(fop token.Token, fx, fy ssa.Value, a VM, op token.Token, b VM) bool {
-	if fop == op && a(fx) && b(fy) {
+// cmpImplies: does `x fop y` imply `x op y` (same operand order)?
+func cmpImplies(fop, op token.Token) bool {
+	if fop == op {
 		return true
 	}
-	if swapOp(fop) == op && a(fy) && b(fx) {
+	switch fop {
+	case token.EQL:
+		return op == token.LEQ || op == token.GEQ
+	case token.LSS:
+		return op == token.LEQ || op == token.NEQ
+	case token.GTR:
+		return op == token.GEQ || op == token.NEQ
+	}
+	return false
+}
+
+// cmpMatch: the fact `fx fop fy` implies the wanted `a op b` (facts are
+// matched by implication, so `x == 0` satisfies a required `x <= 0`, and an
+// arm on which `x == 0` holds is an arm on which a refusing `x <= 0` holds).
+func cmpMatch(fop token.Token, fx, fy ssa.Value, a VM, op token.Token, b VM) bool {
+	if cmpImplies(fop, op) && a(fx) && b(fy) {
+		return true
+	}
+	if cmpImplies(swapOp(fop), op) && a(fy) && b(fx) {
 		return true
 	}
 	return false
 }
 
-// CmpInt: fact `a op n` with integer normalisation (a >= 3 matches a > 2).
+func isUnsigned(v ssa.Value) bool {
+	b, ok := v.Type().Underlying().(*types.Basic)
+	return ok && b.Info()&types.IsUnsigned != 0
+}
+
+// CmpInt: the fact implies `a op n` over the integers (a >= 3 matches a > 2,
+// a == 0 satisfies a <= 0, and for unsigned a, a != 0 satisfies a > 0).
 func CmpInt(a VM, op token.Token, n int64) FM {
 	wantOp, wantN := op, n
 	switch op {
@@ -805,14 +830,51 @@ func CmpInt(a VM, op token.Token, n int64) FM {
 		if f.Kind != "cmp" {
 			return false
 		}
-		cop, x, _, k := canonCmp(f.Op, f.X, f.Y)
-		if k == nil {
+		cop, x, _, kp := canonCmp(f.Op, f.X, f.Y)
+		if kp == nil || !a(x) {
 			return false
 		}
-		if cop == wantOp && *k == wantN && a(x) {
-			return true
+		k := *kp
+		uns := isUnsigned(x)
+		// tighten facts on unsigned values
+		if uns {
+			if cop == token.NEQ && k == 0 {
+				cop, k = token.GTR, 0
+			} else if cop == token.LSS && k <= 1 {
+				cop, k = token.EQL, 0
+			}
 		}
-		// x == n and x != n need no normalisation; handled by equality above.
+		switch cop {
+		case token.EQL:
+			switch wantOp {
+			case token.EQL:
+				return k == wantN
+			case token.NEQ:
+				return k != wantN
+			case token.LSS:
+				return k < wantN
+			case token.GTR:
+				return k > wantN
+			}
+		case token.LSS: // x < k
+			switch wantOp {
+			case token.LSS:
+				return k <= wantN
+			case token.NEQ:
+				return wantN >= k
+			case token.EQL:
+				return uns && k <= 1 && wantN == 0
+			}
+		case token.GTR: // x > k
+			switch wantOp {
+			case token.GTR:
+				return k >= wantN
+			case token.NEQ:
+				return wantN <= k
+			}
+		case token.NEQ:
+			return wantOp == token.NEQ && k == wantN
+		}
 		return false
 	}
 }
